@@ -47,6 +47,7 @@ type job struct {
 	Op      string `json:"op"`
 	Vars    string `json:"vars"` // JSON text of the variable map ("null" = nil map)
 	Origin  string `json:"origin"`
+	Heavy   bool   `json:"heavy,omitempty"` // polynomially expensive by design: run in a child process on the CPU clock
 }
 
 type outcome struct {
@@ -529,7 +530,7 @@ func spreadsCyclic(src string) bool {
 }
 
 func risky(j job) bool {
-	return len(j.Src)+len(j.Vars) > 20000 || braceDepth(j.Src) > 500 || braceDepth(j.Vars) > 500 || spreadsCyclic(j.Src)
+	return j.Heavy || len(j.Src)+len(j.Vars) > 20000 || braceDepth(j.Src) > 500 || braceDepth(j.Vars) > 500 || spreadsCyclic(j.Src)
 }
 
 // ---------------------------------------------------------------- orchestration
@@ -793,7 +794,7 @@ func main() {
 				if n.only != nil && !contains(n.only, e) {
 					continue
 				}
-				p.submit(job{Entry: e, Schema: si, Src: n.src, Op: n.op, Vars: n.vars, Origin: "nasty:" + n.name})
+				p.submit(job{Entry: e, Schema: si, Src: n.src, Op: n.op, Vars: n.vars, Origin: "nasty:" + n.name, Heavy: n.big})
 			}
 		}
 	}
